@@ -17,6 +17,9 @@ type Clause struct {
 }
 
 type Contract struct {
+	Locked        bool   // `locked`: the function is entered (and left) with the UI mutex held
+	Arith2        string // "heapwf": state heap well-formedness (all stored refs < alloc) before every allocation
+	Deterministic bool
 	Key       string // pkg.Func | pkg.Type.Method | pkg.Func$1
 	Kind      string // func | iface | field
 	Header    string
@@ -75,7 +78,14 @@ type GlobalInv struct {
 	Where string
 }
 
+// BoxInv: `//@ boxinv T pred` -- pred(*p) must hold whenever a T / *T is converted to an interface; methods of
+// T may assume it of their receiver (the value is not modified after it has been handed out).
+type BoxInv struct {
+	Pkg, Type, Pred, Where string
+}
+
 type ContractSet struct {
+	BoxInvs    []BoxInv
 	GlobalInvs []GlobalInv
 	TypeInvs   []TypeInv
 	UFuncs     []UFDecl
@@ -242,6 +252,10 @@ func (cs *ContractSet) loadFile(path, repo string) {
 				cs.errf("%s: duplicate contract for %s", at, cur.Key)
 			}
 			cs.Funcs[cur.Key] = cur
+		case "boxinv":
+			flush()
+			tn, pn := splitWord(rest)
+			cs.BoxInvs = append(cs.BoxInvs, BoxInv{pkg, tn, pn, at})
 		case "globalinv":
 			flush()
 			e, err := parseSpec(rest)
@@ -268,6 +282,21 @@ func (cs *ContractSet) loadFile(path, repo string) {
 				}
 			}
 			cs.UFuncs = append(cs.UFuncs, u)
+		case "locked":
+			flush()
+			if cur != nil {
+				cur.Locked = true
+			}
+		case "heapwf":
+			flush()
+			if cur != nil {
+				cur.Arith2 = "heapwf"
+			}
+		case "deterministic":
+			flush()
+			if cur != nil {
+				cur.Deterministic = true
+			}
 		case "defines":
 			flush()
 			if cur != nil {
